@@ -62,15 +62,27 @@ async def scenario(loop, plan, r, out):
         stack.line.n2h.write = rstack_eater
     if plan.get("rstack_delay"):
         # a slow NCP: every RSTACK leaves it late, but inside the host's reset timeout
+        # (it boots for a while after every RST; an RST that arrives while it boots restarts the boot)
         orig_n2h_d = stack.line.n2h.write
+        orig_h2n_d = stack.line.h2n.write
+        booting = {"h": None}
 
         def slow_rstack(data):
             if any(f.get("kind") == "RSTACK" for f in refash.split_wire(data)):
-                loop.call_later(plan["rstack_delay"], orig_n2h_d, data)
+                if booting["h"] is not None:
+                    booting["h"].cancel()
+                booting["h"] = loop.call_later(plan["rstack_delay"], orig_n2h_d, data)
             else:
                 orig_n2h_d(data)
 
+        def host_write_d(data):
+            if booting["h"] is not None and any(f.get("kind") == "RST" for f in refash.split_wire(data)):
+                booting["h"].cancel()
+                booting["h"] = None
+            orig_h2n_d(data)
+
         stack.line.n2h.write = slow_rstack
+        stack.line.h2n.write = host_write_d
     if plan.get("lose"):
         idx, k = plan["lose"]
         st_ = {"n": -1, "target": None, "left": k}
